@@ -131,6 +131,11 @@ def runDictQuery (c : DCtx) (q : String) : String :=
       | "dlist" => (match reListIterDict c i (rec == "1") with
           | .ok rows => "L" ++ ";".intercalate (rows.map (fun r => showDict (.ok r)))
           | .error e => errName e)
+      -- `groupdict=` something that is neither None nor a dict (the plain answer is never consulted)
+      | "biter" => showDict (gdDispatch .other (.error .typeError) (reMatchIterDict c i d (rec == "1")))
+      | "blist" => (match gdDispatch .other (.error .typeError) (reListIterDict c i (rec == "1")) with
+          | .ok rows => "L" ++ ";".intercalate (rows.map (fun r => showDict (.ok r)))
+          | .error e => errName e)
       | _ => "bad-op"
     | _, _ => "bad-query"
   | _ => "bad-query"
